@@ -595,7 +595,7 @@ var psGrammar = &gramSpec{
 
 // E6PSGrammar: PostScript fragments of PS.RenderPath form only known operators with balanced gsave/grestore.
 func E6PSGrammar(c *core.Ctx, r *core.Report) {
-	r.Rule("E6.ps-grammar", "abstract interpretation of the literal fragments PS.RenderPath (and the set* helpers it calls) writes: every completed token is a PostScript operator used by this back-end (or defined in its prolog), a number, a name or a placeholder, and gsave/grestore are balanced on every path")
+	r.Rule("E6.ps-grammar", "abstract interpretation of the literal fragments PS.RenderPath (and the set* helpers it calls) writes: every completed token is a PostScript operator used by this back-end (or defined in its prolog), a number, a name or a placeholder, and gsave/grestore are balanced on every path; no method that memoises an emitted graphics-state parameter in a receiver field (compares the field, emits, stores it) is called while a save (q / gsave) is open, because the restore reverts the parameter in the interpreter but not the memo")
 	runGrammar(c, r, psGrammar, "E6.ps-grammar", []string{"PS.RenderPath"})
 	r.Floor("E6.ps-grammar:writes", 15)
 	r.Floor("E6.ps-grammar:distinct-operators", 8)
